@@ -41,6 +41,9 @@ Inductive rcase :=
      ApiDescription::register (C02) *)
 | CReg (policy : N) (allow_other : bool) (known : list str) (visible : bool) (tags : list str)
        (path : str) (params : list (N * str * ps)) (dfs : list (str * ps)) (code : N)
+       (* a history: this many harmless endpoints (/zz-pre/<k>, unpublished,
+          PUT and GET alternating) were registered on the description first *)
+       (prefix : N)
   (* a table behind a real server under a version policy (pmax: None =
      unversioned, Some i = header policy with max_version chain[i]); requests
      (path, method, version header as the policy sees it) and what came back *)
@@ -240,14 +243,29 @@ Definition valid_decl (tc : tag_config) (visible : bool) (tags : list str)
 
 Definition validator_stage (c : N) : bool := (c =? 50) || (c =? 30) || (c =? 31).
 
+(* decimal digits of a small number, as the harness's format!("{}", k) *)
+Fixpoint dec_digits (fuel : nat) (n : N) (acc : str) : str :=
+  match fuel with
+  | O => acc
+  | S f => let acc' := (48 + n mod 10) :: acc in if n / 10 =? 0 then acc' else dec_digits f (n / 10) acc'
+  end.
+Definition prefix_decl (k : N) : decl N :=
+  ([PLit [122;122;45;112;114;101]; PLit (dec_digits 8 k [])],
+   mkEp ([112;114;101] ++ dec_digits 8 k []) (if k mod 2 =? 0 then [80;85;84] else [71;69;84]) (VAll : vrange N) 0 None false).
+Definition prefix_decls (n : N) : list (decl N) := map prefix_decl (map N.of_nat (seq 0 (N.to_nat n))).
+
 Definition judge_reg (policy : N) (allow_other : bool) (known : list str) (visible : bool)
            (tags : list str) (path : str) (params : list (N * str * ps)) (dfs : list (str * ps))
-           (code : N) : N :=
+           (code : N) (prefix : N) : N :=
   let tc := mkTagConfig (if policy =? 0 then TagAny else if policy =? 1 then TagAtLeastOne else TagExactlyOne)
                         allow_other known in
   let e := mkEp [111;112] [71;69;84] (VAll : vrange N) 0 None visible in
   let d := mkDecl path e tags (mk_params params) dfs in
-  let model := match register N ncmp tc (empty_node N) d with
+  let pre := prefix_decls prefix in
+  match build N ncmp pre with
+  | Err _ => V_MALFORMED
+  | Ok r0 =>
+  let model := match register N ncmp tc r0 d with
                | RAccepted _ => 0
                | RRefused => 50
                | RPanic e => reg_code e
@@ -260,18 +278,21 @@ Definition judge_reg (policy : N) (allow_other : bool) (known : list str) (visib
          (tag policy or template syntax) is the model's business *)
       if code =? 0 then V_VIOLATION else if (code =? model) || (code =? 99) then V_AGREE else V_DIVERGE
   | Ok t =>
-      let want := valid_decl tc visible tags t (mk_params params) dfs in
+      (* the property: accepted iff the declaration is valid on its own and
+         conflicts with nothing registered before *)
+      let want := valid_decl tc visible tags t (mk_params params) dfs && acceptable N ncmp pre (t, e) in
       if negb (bool_eqb (code =? 0) want) then V_VIOLATION
       else if (code =? model) || (validator_stage code && validator_stage model)
               || ((code =? 99) && negb (model =? 0)) then V_AGREE
       else V_DIVERGE
+  end
   end.
 
 Definition judge_detail_c02 (c : rcase) : list N :=
   match c with
   | CPipe _ _ _ _ _ _ _ => []
-  | CReg policy allow_other known visible tags path params dfs code =>
-      [judge_reg policy allow_other known visible tags path params dfs code]
+  | CReg policy allow_other known visible tags path params dfs code prefix =>
+      [judge_reg policy allow_other known visible tags path params dfs code prefix]
   | CTable eps codes paths methods versions os =>
       let st := reg_all {| rs_acc := []; rs_trie := empty_node N; rs_codes := []; rs_stop := false |}
                         eps codes in
@@ -388,7 +409,7 @@ Definition judge_pipe (which : N) (chain : list str) (eps : list (str * ep)) (co
 Definition judge_detail_lookups (which : N) (c : rcase) : list N :=
   match c with
   | CPipe chain eps codes pmax started reqs os => judge_pipe which chain eps codes pmax started reqs os
-  | CReg _ _ _ _ _ _ _ _ _ => []
+  | CReg _ _ _ _ _ _ _ _ _ _ => []
   | CTable eps codes paths methods versions os =>
       match os with
       | [] => []           (* registration ended early: nothing was looked up *)
